@@ -372,6 +372,10 @@ PROPS["C08"]["lean_modules"] = PROPS["C08"]["lean_modules"] + ["Posmint.Props.C0
 PROPS["C08"]["namespaces"] = PROPS["C08"]["namespaces"] + ["Posmint.Props.C08Global"]
 PROPS["C08"]["required_theorems"] = PROPS["C08"]["required_theorems"] + ["Posmint.Props.C08Global." + t for t in
     ("genesis_windowInv", "step_windowInv", "run_windowInv", "counter_always_window_count")]
+# ... and the point it excludes (a governance change of the window) has its counterexample, replayed on the implementation
+PROPS["C08"]["lean_modules"] = PROPS["C08"]["lean_modules"] + ["Posmint.Props.C08Counter"]
+PROPS["C08"]["namespaces"] = PROPS["C08"]["namespaces"] + ["Posmint.Props.C08Counter"]
+PROPS["C08"]["required_theorems"] = PROPS["C08"]["required_theorems"] + ["Posmint.Props.C08Counter.window_change_counterexample"]
 
 # the second denomination (fees only): its theorems are part of the properties they serve
 for _p, _req in (("C02", ["supply2_eq_balances2", "run_inv2", "step_inv2", "genesis_inv2"]), ("C03", ["fee2_buys_nothing", "fee2_from_signer"]),
